@@ -361,7 +361,7 @@ func c12GenPool(r *mon.Rng, kind string) c11Pool {
 		// sharing is the point: allOf users, or-types, regex types
 		switch r.Intn(8) {
 		case 7:
-			p.Families = append(p.Families, curated(10)) // roots binding one name to different types
+			p.Families = append(p.Families, curated(11)) // roots binding one name to different types
 			p.Docs = append(p.Docs, c11CuratedDocs[len(c11CuratedDocs)-4:]...)
 		case 0:
 			p.Families = append(p.Families, curated(0))
